@@ -31,6 +31,12 @@ func zzValidGroup(sch *crypto.Scheme, pfx string, n int, withKey, withSeed bool,
 			Signature: zz.Bytes(fmt.Sprintf("%s.node%d.sig", pfx, i), zz.Param("siglen", 2))}
 		g.Nodes = append(g.Nodes, &key.Node{Identity: id, Index: zz.U32(fmt.Sprintf("%s.node%d.index", pfx, i))})
 	}
+	// every member has its own index (the listing order is arbitrary)
+	for i := 0; i < n; i++ {
+		for j := i + 1; j < n; j++ {
+			zz.Assume(g.Nodes[i].Index != g.Nodes[j].Index)
+		}
+	}
 	thr := int(zz.U32(pfx + ".threshold"))
 	zz.Assume(thr >= key.MinimumT(n) && thr <= n)
 	thr = int(zz.Concretize(uint64(thr)))
@@ -67,11 +73,23 @@ func zzGroupSame(tag string, g, g2 *key.Group) {
 	zz.Assert(tag+"_id", common.CompareBeaconIDs(g2.ID, g.ID))
 	zz.Assert(tag+"_scheme", g2.Scheme != nil && g2.Scheme.Name == g.Scheme.Name)
 	zz.Assert(tag+"_node_count", len(g2.Nodes) == len(g.Nodes))
-	for i := range g.Nodes {
-		zz.Assert(tag+"_node_index", g2.Nodes[i].Index == g.Nodes[i].Index)
-		zz.Assert(tag+"_node_key", g2.Nodes[i].Key.Equal(g.Nodes[i].Key))
-		zz.Assert(tag+"_node_addr", g2.Nodes[i].Addr == g.Nodes[i].Addr)
-		zz.Assert(tag+"_node_sig", bytes.Equal(g2.Nodes[i].Signature, g.Nodes[i].Signature))
+	// a group is a map from index to member: the order of the slice carries no meaning (Group.Hash sorts it in
+	// place, also while a group without a stored seed is being encoded), so members are matched by index
+	for _, nd := range g.Nodes {
+		var m *key.Node
+		for _, c := range g2.Nodes {
+			if c.Index == nd.Index {
+				m = c
+				break
+			}
+		}
+		zz.Assert(tag+"_node_index", m != nil)
+		if m == nil {
+			continue
+		}
+		zz.Assert(tag+"_node_key", m.Key.Equal(nd.Key))
+		zz.Assert(tag+"_node_addr", m.Addr == nd.Addr)
+		zz.Assert(tag+"_node_sig", bytes.Equal(m.Signature, nd.Signature))
 	}
 	zz.Assert(tag+"_pubkey_presence", (g2.PublicKey == nil) == (g.PublicKey == nil))
 	if g.PublicKey != nil && g2.PublicKey != nil {
